@@ -21,6 +21,8 @@ structure Frame where
   saved : List (Nat × Nat) := []              -- on-error saved stream lengths
   /-- `__slot_<name>` of a macro function: the filler popped at its start (`none` = no filler: default content) -/
   slotFns : List (Str × Option Nat) := []
+  /-- the template this function was compiled from (0 = the one being rendered, k > 0 = library k) -/
+  tid : Nat := 0
   deriving Inhabited
 
 structure ErrRec where
@@ -55,6 +57,7 @@ structure Closure where
   context : Option Str
   targetLang : Val
   slotFns : List (Str × Option Nat)
+  tid : Nat := 0
   deriving Inhabited
 
 structure RState where
@@ -72,6 +75,14 @@ structure RState where
   errs : Array (Nat × Nat) := #[]
   deriving Inhabited
 
+/-- a template other than the one being rendered: compiled when first used -/
+structure LibTpl where
+  src : Str
+  base : Nat                                   -- its tokens carry positions `base + offset`
+  macros : List (Str × Node)
+  body : Node
+  deriving Inhabited
+
 structure ECfg where
   tc : TCfg
   tab : ObjTab
@@ -82,6 +93,10 @@ structure ECfg where
   booleanAttrs : List Str
   src : Str                                    -- the (newline-normalised) template source, for token locations
   macros : List (Str × Node) := []             -- the template's macros (`render_<name>` functions)
+  /-- the whole template as a render function (used when the template itself is used as a macro) -/
+  body : Node := .seq []
+  /-- other templates passed in as variables (library k = `libs[k-1]`); their token positions start at `base` -/
+  libs : List LibTpl := []
 
 inductive XRes (α : Type)
   | ok (a : α) (x : XState)
@@ -175,9 +190,26 @@ def runEM {α} (m : EM α) : XM α := fun x =>
   | (.raised e, es) => .raised e { x with log := es.log }
   | (.unsupported w, _) => .unsupported w
 
+/-- the macros of template `tid` -/
+def ECfg.macrosOf (cfg : ECfg) (tid : Nat) : List (Str × Node) :=
+  if tid == 0 then cfg.macros else ((cfg.libs[tid - 1]?).map (·.macros)).getD []
+
+/-- the render function `Macros.__getitem__` / `template.include` gives: a macro's body, or the whole template -/
+def ECfg.macroBody (cfg : ECfg) (tid : Nat) (name : Option Str) : Option Node :=
+  match name with
+  | some n => lookupAssoc (cfg.macrosOf tid) n
+  | none => if tid == 0 then some cfg.body else (cfg.libs[tid - 1]?).map (·.body)
+
+/-- the template a token position belongs to, and the position inside it -/
+def ECfg.locate (cfg : ECfg) (pos : Nat) : Str × Nat :=
+  match cfg.libs.find? (fun l => l.base ≤ pos && pos < l.base + l.src.length + 1) with
+  | some l => (l.src, pos - l.base)
+  | none => (cfg.src, pos)
+
 def mkECtx (cfg : ECfg) (al : List (Str × Val)) (e : Env) : ECtx :=
   { tab := cfg.tab, vars := e.own ++ e.root, aliases := al, repeats := e.repeats, pyBuiltins := cfg.pyBuiltins,
-    macroNames := cfg.macros.map (·.1) }
+    tid := (e.frames.headD {}).tid,
+    macroTable := (0, cfg.macros.map (·.1)) :: cfg.libs.zipIdx.map (fun (l, i) => (i + 1, l.macros.map (·.1))) }
 
 /-- value classes of `__quote` / `__convert` -/
 def toQIn (cfg : ECfg) (v : Val) : R QIn :=
@@ -538,7 +570,7 @@ back to the saved length (dropping any translation sub-streams opened since), le
 def onErrorHandle (cfg : ECfg) (key depth savedLen : Nat) (ex : Exc) (s' : RState) : Option RState :=
   -- `__tokens[__token][1:3] if __token is not None else (None, None)`: no position is known when the exception comes
   -- out of an internal macro or a slot filler (before the D-13c fix the handler raised KeyError(None) then)
-  let pos : Option (Nat × Nat) := s'.x.token.map (fun t => Tok.location cfg.src { str := [], pos := t.1 })
+  let pos : Option (Nat × Nat) := s'.x.token.map (fun t => let (src, p) := cfg.locate t.1; Tok.location src { str := [], pos := p })
   -- the saved length lives in a Python local: one per on-error node, or (quirk D-13a) one per function
   let cut := if cfg.tc.q.sharedFallbackVar then ((s'.env.topFrame.saved.find? (·.1 == key)).map (·.2)).getD savedLen
              else savedLen
@@ -594,12 +626,12 @@ def resolveSlots (env : Env) (heap : List (Nat × List Nat)) (names : List Str) 
 
 /-- the state in which a macro function starts: a copy of the caller's scope, a fresh frame with the i18n settings
 passed as arguments, `__token = None`, slots resolved -/
-def macroEnter (body : Node) (s : RState) : RState :=
+def macroEnter (tid : Nat) (body : Node) (s : RState) : RState :=
   let names := (definedSlots 64 body).eraseDups
   let callee : Env := { s.env with root := s.env.rootDict, hasRoot := true }
   let (heap', slotFns) := resolveSlots callee s.heap names
   let fr : Frame := { domain := s.env.topFrame.domain, context := s.env.topFrame.context,
-                      targetLang := s.env.topFrame.targetLang, slotFns := slotFns }
+                      targetLang := s.env.topFrame.targetLang, slotFns := slotFns, tid := tid }
   { s with heap := heap', env := { callee with frames := fr :: s.env.frames }, x := { s.x with token := none } }
 
 /-- back in the caller after a macro function returned: the callee's scope is gone, `rcontext` (and the repeat
@@ -619,7 +651,7 @@ def macroRaise (s s' : RState) : RState :=
 values and slot variables of the place where it was written -/
 def fillerEnter (cl : Closure) (s : RState) : RState :=
   let fr : Frame := { cache := cl.cache, domain := cl.domain, context := cl.context, targetLang := cl.targetLang,
-                      slotFns := cl.slotFns }
+                      slotFns := cl.slotFns, tid := cl.tid }
   { s with env := { s.env with root := s.env.rootDict, hasRoot := true, frames := fr :: s.env.frames },
            x := { s.x with token := none } }
 
@@ -861,7 +893,7 @@ def eval (cfg : ECfg) (al : List (Str × Val)) : Nat → Node → RM Unit
         let cid := s.closures.size
         let fr := s.env.topFrame
         let cl : Closure := { node := sn, al := al, cache := fr.cache, domain := fr.domain, context := fr.context,
-                              targetLang := fr.targetLang, slotFns := fr.slotFns }
+                              targetLang := fr.targetLang, slotFns := fr.slotFns, tid := fr.tid }
         let key := slotKey nm.str
         let existing : Option Val := if extend then s.env.get key else none
         match existing with
@@ -873,29 +905,36 @@ def eval (cfg : ECfg) (al : List (Str × Val)) : Nat → Node → RM Unit
           mSet { s with closures := s.closures.push cl, heap := heapSet s.heap did [cid] }
           setVar key (.slots did))
       let v ← enVal cfg al e
-      match v with
-      | .macro (some name) =>
-        match lookupAssoc cfg.macros name with
-        | none => mUnsupported "macro of another template"
+      -- `__macro.include`: a `Macro` object, or a template object (the whole template used as a macro)
+      let target : Option (Nat × Option Str) := match v with
+        | .macro tid name => some (tid, name)
+        | .template_ tid => some (tid, none)
+        | _ => none
+      match target with
+      | some (tid, name) =>
+        match cfg.macroBody tid name with
+        | none => mUnsupported "unknown macro"
         | some body => (fun s =>
-          match eval cfg ([] : List (Str × Val)) f body (macroEnter body s) with
+          match eval cfg ([] : List (Str × Val)) f body (macroEnter tid body s) with
           | .ok () s' => .ok () (macroLeave s s')
           | .raised ex s' => .raised ex (macroRaise s s')
           | .unsupported w => .unsupported w)
-      | _ => mUnsupported "use-macro of this value"
+      | none => mUnsupported "use-macro of this value"
     | .useInternal name =>
       match name with
       | none => mUnsupported "use of the template itself as a macro"
-      | some nm =>
-        match lookupAssoc cfg.macros nm with
-        | none => mUnsupported "unknown internal macro"
-        | some body => (fun s =>
+      | some nm => fun s =>
+        -- a macro of the template whose code is running
+        let tid := s.env.topFrame.tid
+        match lookupAssoc (cfg.macrosOf tid) nm with
+        | none => .unsupported "unknown internal macro"
+        | some body =>
           -- `__token = None` before the call
           let s0 : RState := { s with x := { s.x with token := none } }
-          match eval cfg ([] : List (Str × Val)) f body (macroEnter body s0) with
+          match eval cfg ([] : List (Str × Val)) f body (macroEnter tid body s0) with
           | .ok () s' => .ok () (macroLeave s0 s')
           | .raised ex s' => .raised ex (macroRaise s0 s')
-          | .unsupported w => .unsupported w)
+          | .unsupported w => .unsupported w
     | .codeBlock _ => mUnsupported "code block"
 def evalList (cfg : ECfg) (al : List (Str × Val)) : Nat → List Node → RM Unit
   | 0, _ => mUnsupported "out of fuel"
